@@ -102,7 +102,7 @@ def impl_driver(flavour="asan"):
                  "tsan": "-O1 -g -fsanitize=thread",
                  "plain": "-O1 -g"}[flavour]
         csrc = " ".join(sorted(glob.glob(os.path.join(REPO, "lib", "*.c"))))
-        cmd = "gcc %s -D_GNU_SOURCE -D_REENTRANT -D%s -w -I%s/include -I%s/lib -o %s %s %s -lpthread" % (
+        cmd = "gcc %s -D_GNU_SOURCE -D_REENTRANT -D%s -w -Wl,--wrap=fopen -I%s/include -I%s/lib -o %s %s %s -lpthread" % (
             flags, GUARD, REPO, REPO, exe, drv, csrc)
         rc, out = sh(cmd, timeout=600)
         if rc != 0:
